@@ -17,6 +17,16 @@ def allEq : List Rat → Option Rat
   | [] => none
   | x :: xs => if xs.all (· == x) then some x else none
 
+def exceptJson (r : Except String (List Rat)) : Json :=
+  match r with
+  | .ok xs => Json.mkObj [("out", rats xs)]
+  | .error e => Json.mkObj [("err", Json.str e)]
+
+def optRat (j : Json) (k : String) : Except String (Option Rat) :=
+  match optField j k with
+  | none => pure none
+  | some v => do pure (some (← getRat v))
+
 def handle (entry : String) (j : Json) : Except String Json := do
   match entry with
   | "modulo_counter" =>
@@ -39,6 +49,47 @@ def handle (entry : String) (j : Json) : Except String Json := do
       ("model", rats model), ("rec", rats rec_), ("closed", closed),
       ("zero_at", optJson natToJson zeroAt),
       ("branch", Json.str (mcBranch a m s))]
+  | "line" =>
+    let dur ← getRat (← field j "dur")
+    let b ← getRat (← field j "begin")
+    let e ← getRat (← field j "end")
+    let fin ← getBool (← field j "finish")
+    pure <| Json.mkObj [("model", exceptJson (line dur b e fin)), ("spec", rats (lineSpec dur b e fin))]
+  | "fadein" =>
+    let dur ← getRat (← field j "dur")
+    pure <| Json.mkObj [("model", exceptJson (fadein dur)), ("spec", rats (lineSpec dur 0 1 false))]
+  | "fadeout" =>
+    let dur ← getRat (← field j "dur")
+    pure <| Json.mkObj [("model", exceptJson (fadeout dur)), ("spec", rats (lineSpec dur 1 0 false))]
+  | "const" =>
+    let v ← getRat (← field j "v")
+    let dur ← optRat j "dur"
+    let n ← getNat (← field j "n")
+    pure <| Json.mkObj [("model", rats (constGen v dur n)), ("spec", rats (constSpec v dur n))]
+  | "impulse" =>
+    let dur ← optRat j "dur"
+    let n ← getNat (← field j "n")
+    let one := fieldD j "one" (Json.int 1)
+    let zero := fieldD j "zero" (Json.int 0)
+    pure <| Json.mkObj [("model", arr id (impulse dur one zero n)),
+                        ("spec", arr id (impulseSpec dur one zero n))]
+  | "adsr" =>
+    let dur ← getRat (← field j "dur")
+    let a ← getRat (← field j "a")
+    let d ← getRat (← field j "d")
+    let s ← getRat (← field j "s")
+    let r ← getRat (← field j "r")
+    pure <| Json.mkObj [("model", exceptJson (adsr dur a d s r)), ("spec", rats (adsrSpec dur a d s r))]
+  | "attack" =>
+    let a ← getRat (← field j "a")
+    let d ← getRat (← field j "d")
+    let s ← getArg (← field j "s")
+    let n ← getNat (← field j "n")
+    let spec : Json := match s with
+      | .num x => rats (attackSpec a d x (List.replicate n x) n)
+      | .strm (x :: xs) => rats (attackSpec a d x xs n)
+      | .strm [] => Json.null
+    pure <| Json.mkObj [("model", exceptJson (attack a d s n)), ("spec", spec)]
   | _ => throw s!"C19: unknown entry {entry}"
 
 end ALV.Driver.C19
